@@ -1,0 +1,15 @@
+//go:build !verif
+
+package fstxn
+
+// Verification hooks (see verif_hooks_on.go). Without the verif build
+// tag they do nothing.
+
+func verifBegin(op *FsTxn)                 {}
+func verifAcquire(op *FsTxn, inum uint64)  {}
+func verifAcquired(op *FsTxn, inum uint64) {}
+func verifRelease(op *FsTxn, inum uint64)  {}
+func verifAlloc(op *FsTxn, inum uint64)    {}
+func verifCommit(op *FsTxn, wait bool)     {}
+func verifCommitted(op *FsTxn, ok bool)    {}
+func verifAbort(op *FsTxn)                 {}
